@@ -39,6 +39,11 @@ VOCAB = ["(", ")", "{", "}", "[", "]", ",", ".", "..", "-", "-=", "+", "+=", ":"
          "\"\\u{110000}\"", "é", "😀", "\t", "@", "$", "`"]
 
 
+# ties between the function bodies translated from the Rust source on every run (Gen/Fns.lean) and the hand-written models
+THEOREM_MODULES.append("Yarel.Props.FnsTie.Compiler")
+REQUIRED_THEOREMS += ['precedence_from_discr', 'precedence_from_panics_iff']
+
+
 def mutate(rng, src):
     k = rng.below(6)
     if not src:
